@@ -452,6 +452,9 @@ func (cs *ContractSet) parseItem(file, pkgPath, header string, line int, clauses
 				if len(fs) >= 1 && fs[0] == "nooverflow" {
 					c.NoOvf = true
 				}
+				if len(fs) >= 1 && fs[0] == "assumeensures" {
+					cs.Assumed = append(cs.Assumed, fmt.Sprintf("postconditions of %s.%s are assumed, not checked (its loop clauses and guards are checked)", pkgPath, c.Name))
+				}
 				if len(fs) >= 1 && fs[0] == "assumeframe" {
 					cs.Assumed = append(cs.Assumed, fmt.Sprintf("frame (modifies clause) of %s.%s is assumed, not checked", pkgPath, c.Name))
 				}
